@@ -240,6 +240,8 @@ type s5Reply struct {
 	Stage   string // where the conversation ended
 	Err     error
 	Pushed  bool // the request was sent although the negotiation had failed
+
+	EarlySent bool // application bytes went out behind the request, before the reply
 }
 
 func contains(list []byte, v byte) bool { return bytes.IndexByte(list, v) >= 0 }
@@ -249,7 +251,11 @@ func contains(list []byte, v byte) bool { return bytes.IndexByte(list, v) >= 0 }
 //
 // pushy models a client that does not take no for an answer: after X'FF' or a failed RFC 1929 status it
 // sends its request anyway. Such a request must never be honoured.
-func rawSocks5(c io.ReadWriter, methods []byte, cr cred, cmd byte, tgt target, pushy bool) (r s5Reply) {
+//
+// early holds application bytes an optimistic client sends right behind its request, before the reply
+// (RFC 1928 does not forbid it): earlyMode 1 = in the same write as the request, 2 = in a write of
+// their own immediately after it. r.EarlySent tells whether they went out.
+func rawSocks5(c io.ReadWriter, methods []byte, cr cred, cmd byte, tgt target, pushy bool, earlyMode int, early []byte) (r s5Reply) {
 	r = s5Reply{Sel: -1, Auth: -1, Rep: -1}
 	msg := append([]byte{5, byte(len(methods))}, methods...)
 	if _, r.Err = c.Write(msg); r.Err != nil {
@@ -302,9 +308,20 @@ func rawSocks5(c io.ReadWriter, methods []byte, cr cred, cmd byte, tgt target, p
 	}
 	r.Pushed = (r.Sel != 0 && r.Sel != 2) || r.Auth > 0
 	req := append([]byte{5, cmd, 0}, tgt.wire()...)
+	if earlyMode == 1 {
+		req = append(req, early...)
+		r.EarlySent = true
+	}
 	if _, r.Err = c.Write(req); r.Err != nil {
 		r.Stage = "write-request"
 		return
+	}
+	if earlyMode == 2 {
+		if _, r.Err = c.Write(early); r.Err != nil {
+			r.Stage = "write-early-data"
+			return
+		}
+		r.EarlySent = true
 	}
 	var h [4]byte
 	if _, r.Err = io.ReadFull(c, h[:]); r.Err != nil {
